@@ -261,3 +261,18 @@ add("sfista-zero-iterations-allowed", F, "C07", "dfols/params.py", "type_str, no
 add("dykstra-zero-sweeps-allowed", F, "C09", "dfols/params.py", "type_str, nonetype_ok, lower, upper = 'int', False, 1, None  # zero sweeps would return the point unprojected", "type_str, nonetype_ok, lower, upper = 'int', False, 0, None", "C09-6")
 add("local-assigned-in-one-branch-only", F, "C07", "dfols/controller.py", "        dist = sqrt(distsq)\n        if update_delta:  # optional", "        if update_delta:  # optional\n            dist = sqrt(distsq)", "C07-11")
 add("s-local-initialised-earlier", S, ["C07"], "dfols/trust_region.py", "    d = np.zeros(n) # start with zero vector\n    y = np.zeros(n)", "    d = np.zeros(n) # start with zero vector\n    gnew = g.copy()\n    y = np.zeros(n)")
+
+# ---- T14 mirror symmetry
+add("mirror-alt-step-upper-sign", F, "C12", "dfols/trust_region.py", "                        temp = sqrt(temp) + s[i]", "                        temp = sqrt(temp) - s[i]", "C12-3")
+add("mirror-trsbox-initial-active-set", F, "C12", "dfols/trust_region.py", "    xbdi[(xopt >= su) & (g <= 0.0)] = 1", "    xbdi[(xopt >= su) & (g >= 0.0)] = 1", "C12-3")
+add("mirror-pinning-wrong-bound", F, "C12", "dfols/trust_region.py", "    xnew[xbdi == 1] = su[xbdi == 1]", "    xnew[xbdi == 1] = sl[xbdi == 1]", "C12-3")
+add("mirror-trsbox-linear-face", F, "C13", "dfols/trust_region.py", "            elif xnew[j] >= b[j]:\n                on_box_bdry = True\n                hit_upper = True", "            elif xnew[j] >= b[j]:\n                on_box_bdry = True\n                hit_upper = False", "C13-5")
+add("mirror-get-scale-upper", F, "C14", "dfols/util.py", "            scale = min(scale, upper[j] / dirn[j])", "            scale = min(scale, lower[j] / dirn[j])", "C14-5")
+add("mirror-second-step-max-min", F, "C14", "dfols/controller.py", "stepb = max(-2.0 * self.delta, self.model.sl[dirn])", "stepb = min(-2.0 * self.delta, self.model.sl[dirn])", "C14-")
+add("mirror-x0-upper-stanza", F, "C01", "dfols/solver.py", "    x0[idx] = xu[idx]\n", "    x0[idx] = xl[idx]\n", "C01-")
+add("mirror-rho-criterion-sign", F, "C18", "dfols/controller.py", "                bdtest = -gnew[j]", "                bdtest = gnew[j]", "C18-6")
+add("s-mirror-blocks-reordered", S, ["C12"], "dfols/trust_region.py", "    xbdi[(xopt <= sl) & (g >= 0.0)] = -1\n    xbdi[(xopt >= su) & (g <= 0.0)] = 1", "    xbdi[(xopt >= su) & (g <= 0.0)] = 1\n    xbdi[(xopt <= sl) & (g >= 0.0)] = -1")
+add("s-mirror-equivalent-algebra", S, ["C12"], "dfols/trust_region.py", "                    tempb = su[i] - xopt[i] - d[i]", "                    tempb = -(xopt[i] + d[i] - su[i])")
+add("s-mirror-comparison-flipped", S, ["C13"], "dfols/trust_region.py", "            elif xnew[j] >= b[j]:", "            elif b[j] <= xnew[j]:")
+add("random-default-widened", F, "C19", "dfols/params.py", "True if npt > (n+1)*(n+2)//2 else False", "True if npt >= (n+1)*(n+2)//2 else False", "C19-1b")
+add("x0-exit-returns-raw-residual", F, ["C20", "C03"], "dfols/solver.py", "return x0, r0_avg, obj0_avg, None, num_samples_run", "return x0, r0, obj0_avg, None, num_samples_run", "")
